@@ -393,6 +393,22 @@ func envPickler(x starlark.Value) (module, name string, args starlark.Tuple, err
 		if x.Type() == "range" {
 			return "dawn", "Range", starlark.Tuple{starlark.String(x.String())}, nil
 		}
+		// An iterable that is neither a sequence nor a mapping ("abc".codepoints(), b"ab".elems()) is its type and its
+		// elements; the encoder itself has no form for it.
+		if it, ok := x.(starlark.Iterable); ok {
+			_, isSequence := x.(starlark.Sequence)
+			_, isMapping := x.(starlark.IterableMapping)
+			if !isSequence && !isMapping {
+				var elems starlark.Tuple
+				iter := it.Iterate()
+				defer iter.Done()
+				var elem starlark.Value
+				for iter.Next(&elem) {
+					elems = append(elems, elem)
+				}
+				return "dawn", "Iterable", starlark.Tuple{starlark.String(x.Type()), elems}, nil
+			}
+		}
 		return "", "", nil, pickle.ErrCannotPickle
 	}
 }
@@ -439,6 +455,11 @@ func envUnpickler(module, name string, args starlark.Tuple) (starlark.Value, err
 	case "Range":
 		if len(args) != 1 {
 			return nil, fmt.Errorf("expected 1 arg, got %v", len(args))
+		}
+		return args, nil
+	case "Iterable":
+		if len(args) != 2 {
+			return nil, fmt.Errorf("expected 2 args, got %v", len(args))
 		}
 		return args, nil
 	case "Mandatory", "Unassigned":
